@@ -358,7 +358,7 @@ def observe_layer(c):
         o["pil_alpha"] = l2.topil(ChannelID.TRANSPARENCY_MASK)
     except Exception as e:
         o["pil_alpha_exc"] = e
-    if c["depth"] == 8:
+    if c["depth"] == 8 or deep_fixed():
         nc = {"L": 1, "RGB": 3, "CMYK": 4}[BASE[c["docmode"]]]
         sel = {}
         for k in [-1] + list(range(nc)):
@@ -491,7 +491,7 @@ def layer_impl_digests(c, o, export):
     out = [rec.top + 1000000, rec.left + 1000000, rec.bottom + 1000000, rec.right + 1000000, len(rec.channel_info)]
     for info, ch in zip(rec.channel_info, l._channels):
         try:
-            data = list(ch.get_data(c["w"], c["h"], 8, o["version"]))
+            data = list(ch.get_data(c["w"], c["h"], c["depth"] if deep_fixed() else 8, o["version"]))
         except Exception as e:
             data = [-exc_code(e)]
         out += [int(info.id) + 2, len(data)] + data
@@ -530,14 +530,18 @@ def layer_impl_digests(c, o, export):
     return [d0, d1, d2, pc.dg(acc)]
 
 
+def deep_fixed():
+    return not pc.is_open(st(), "F-C07-7")
+
+
 def layer_lit_of(bits):
     def lit(a):
         c, tab, export = a
         docpm = -1 if c["docmode"] is None else pc.MODE_CODE[c["_pil_mode"]]
         cm = 3 if c["docmode"] is None else CM_CODE[BASE[c["docmode"]]]
-        return "(mkLC %d %s %d %d %d %d %d %d %d %s %s %s %s)" % (
+        return "(mkLC %d %s %d %d %d %d %d %d %d %s %s %s %d %s)" % (
             bits, z(docpm), cm, pc.MODE_CODE[c["mode"]], c["w"], c["h"], c["seed"], c["step"], c["astyle"],
-            z(c["top"]), z(c["left"]), pc.coq_bool(export), tab_lit(tab))
+            z(c["top"]), z(c["left"]), pc.coq_bool(export), c["depth"] if c["docmode"] is not None else 8, tab_lit(tab))
     return lit
 
 
@@ -729,6 +733,15 @@ def check_laws(ck, images):
     ok_u = got is not None and got[1] == du
     ck.obligations.append(("law:unmatte_px = pil_io._remove_white_background (65536 pairs)", ok_u,
                            "" if ok_u else "model %r implementation %r" % (got and got[1], du)))
+    try:
+        out = ck.coq_eval("laws_f32", "Eval vm_compute in [f32_table_digest].\n", IMPORTS)
+        gotf = core.coq_nat_list(out)
+    except Exception as e:
+        gotf = None
+        ck.notes.append("f32 table: %s" % str(e)[:200])
+    f32 = (np.arange(256, dtype=np.uint8) / 255.0).astype(">f4").tobytes()
+    ck.obligations.append(("law:f32_table = (uint8 / 255.0).astype('>f4') for all 256 samples",
+                           gotf is not None and gotf[0] == pc.dg(list(f32)), ""))
     ck.evals += 2 * 65536
     if not ok_u and du >= 0:
         # find a concrete pair
@@ -751,7 +764,7 @@ def run():
                "x offsets inside / straddling / outside a 6x4 canvas; non-trivial = distinct (path, modes, size, compression, offset class)")
     pc.drop_assumed_fixed(ck, st())
     bits = pc.cfg_bits(st())
-    ck.notes.append("model configuration bits %d (fx_cmyk, fx_alpha, fx_matte, fx_bitmap, fx_save) from known_findings status" % bits)
+    ck.notes.append("model configuration bits %d (fx_cmyk, fx_alpha, fx_matte, fx_bitmap, fx_save, fx_deep) from known_findings status" % bits)
     ok = ck.coq_build(["theories/Pixels/Corr.v", "theories/Properties/C07.v"])
     if ok:
         ck.collect_theorems("C07.v")
@@ -798,7 +811,7 @@ def run():
             if c.get("psb") and c["comp"] == 1 and pc.is_open(st(), "F-C07-9"):
                 ck.count("correspondence skipped under open finding F-C07-9")
                 continue
-            export = c["depth"] == 8 and c["docmode"] is not None
+            export = (c["depth"] == 8 or deep_fixed()) and c["docmode"] is not None
             layer_cases.append(((cc, conv_table(o["im"], o.get("pil_mode")), export), layer_impl_digests(c, o, export)))
     ck.sample({"layer_case": lcs[len(lcs) // 3]})
     check_laws(ck, images[:: max(1, len(images) // 200)])
